@@ -181,6 +181,14 @@ def answer (r : Res) (built : ArrayData) : String :=
   | .err => "ERR"
   | .panic => "PANIC"
 
+/-- a non-nullable field over a child whose `logical_nulls` is not its validity bitmap
+(Null / Dictionary / RunEndEncoded / Union): not modelled -/
+def typedNeedsLogicalNulls (kind : String) (d : ArrayData) : Bool :=
+  match kind, d.type with
+  | "list", .list _ item false | "fsl", .fsl _ item false => !logicalSimple item
+  | "struct", .struct fs => fs.toList.any (fun f => !f.2.2 && !logicalSimple f.2.1)
+  | _, _ => false
+
 def handle (toks : List String) : String :=
   match toks with
   -- `ArrayData::try_new`, bottom-up
@@ -198,6 +206,37 @@ def handle (toks : List String) : String :=
     match parseArray a with
     | some d => s!"ok wf={showBool (wellFormedB (buildTree d))}"
     | none => "bad-op"
+  -- typed constructor, modelled: accept / reject must coincide, and acceptance needs the spec verdict
+  | ["typed", kind, a] =>
+    match parseArray a with
+    | some d =>
+      if kind != "run" && (match typedLen kind d with
+                           | some l => l != d.len
+                           | none => false) then "SHAPE"
+      else if typedNeedsLogicalNulls kind d then "SKIP"
+      else match typedModel kind d with
+        | .ok => s!"ok wf={showBool (wellFormedB (buildTree d))}"
+        | _ => "REJ"
+    | none => "bad-op"
+  -- `OffsetBuffer::new`
+  | ["obuf", w, h] =>
+    match w.toNat?, hexE h with
+    | some w, some b => if offsetBufferNew (scalarEntries b w true) = .ok then "ok" else "PANIC"
+    | _, _ => "bad-op"
+  -- `OffsetBuffer::from_lengths`
+  | ["fromlens", w, ls] =>
+    match w.toNat?, parseList String.toNat? ls with
+    | some w, some ls =>
+      match fromLengths w ls with
+      | some offs => showList toString offs
+      | none => "PANIC"
+    | _, _ => "bad-op"
+  -- `RunEndBuffer::new`
+  | ["rebuf", w, h, off, len] =>
+    match w.toNat?, hexE h, off.toNat?, len.toNat? with
+    | some w, some b, some off, some len =>
+      if runEndBufferNew w (scalarEntries b w true) off len = .ok then "ok" else "PANIC"
+    | _, _, _, _ => "bad-op"
   -- typed constructor rejected this layout (recorded for coverage only)
   | ["trej", _kind, _a] => "REJ"
   -- alignment of one buffer
